@@ -181,6 +181,9 @@ func runMigration(d *memory.Database, retained uint64, minAge time.Duration, can
 // migrate: the node process ends, the migration runs on its database (with the plan's interruptions), a new
 // process starts. The model takes the same step (`migrate`): completed migration + restart.
 func (w *world) migrate(retained uint64, plan migPlan) migResult {
+	if w.broken || w.node == nil {
+		return migResult{Outcome: "err:world stopped"}
+	}
 	w.rec("migrate", retained, fmt.Sprintf("cancel=%d crash-all=%v", plan.CancelAt, plan.CrashAll))
 	w.res.Hit("op:migrate")
 	if w.proc != nil {
@@ -193,6 +196,13 @@ func (w *world) migrate(retained uint64, plan migPlan) migResult {
 		minAge = time.Since(time.Unix(int64(w.cutoff), 0))
 		w.minAgeDur = minAge
 		mf = w.migMinAgeFloor()
+		w.clock(w.migCut)
+		// the model's own FindOldestBlockAtOrAfter(0, pivot, cut-off) against the harness' linear scan
+		if o, err := w.drv.Ask("migfloor"); err != nil {
+			w.harnessFailed("model driver: migfloor: %v", err)
+		} else if w.res.Compared(1); o != mf {
+			w.mismatch("migration-min-age-floor", map[string]any{"retained": retained, "cutoff": w.migCut}, o, mf)
+		}
 	}
 	u := w.unchangedSlot(retained, mf)
 	var forks []*memory.Database
@@ -207,6 +217,7 @@ func (w *world) migrate(retained uint64, plan migPlan) migResult {
 	})
 	if w.cutoff > 0 && mf != w.migMinAgeFloor() {
 		w.broken = true
+		clockSkipped.Add(1)
 		w.res.Hit("skipped:clock-crossed-a-block-timestamp")
 		return res
 	}
@@ -235,7 +246,7 @@ func (w *world) migrate(retained uint64, plan migPlan) migResult {
 			continue
 		}
 		f := &world{res: w.res, ch: w.ch, name: w.name, spec: w.spec, drv: w.fdrv, fixed: w.fixed, mig: w.mig, pcfg: w.pcfg,
-			height: w.height, l1: w.l1, fspec: w.fspec, cutoff: w.cutoff, minAgeDur: w.minAgeDur, isFork: true,
+			height: w.height, l1: w.l1, fspec: w.fspec, cutoff: w.cutoff, minAgeDur: w.minAgeDur, isFork: true, tsSent: w.tsSent,
 			situation: "after-migration-crash", migrated: true, quiescent: true, lastLow: w.lastLow, noState: w.noState, extra: w.extra}
 		f.ops = append(append([]opRec{}, w.ops...), opRec{Op: "crash-image", N: uint64(i),
 			Note: "kill -9 right after this batch write of the migration above; the migration is run again on the image"})
@@ -243,7 +254,7 @@ func (w *world) migrate(retained uint64, plan migPlan) migResult {
 		f.shadowDB = w.shadowDB.Copy()
 		f.shadow = lib.NodeOn(f.shadowDB, w.ch.g.Net, w.ch.newState)
 		if outs, err := f.drv.AskAll(w.lines); err != nil || len(outs) != len(w.lines) {
-			w.res.Note("fork driver: %v", err)
+			w.harnessFailed("migration fork: second model driver: %v", err)
 			continue
 		}
 		f.lines = append([]string{}, w.lines...)
@@ -359,7 +370,7 @@ func (w *world) scratchTie(images []*memory.Database, retained uint64, mf string
 	}
 	outs, err := w.drv.AskAll(lines)
 	if err != nil || len(outs) != len(lines) {
-		w.res.Note("driver: %v", err)
+		w.harnessFailed("model driver: %v", err)
 		return
 	}
 	for i, o := range outs {
@@ -402,6 +413,7 @@ func (w *world) migMinAgeFloor() string {
 	}
 	pivot := min(uint64(w.l1), uint64(w.height))
 	cut := w.cutoffNow()
+	w.migCut = cut
 	for n := uint64(0); n <= pivot; n++ {
 		if w.ch.g.Bundles[n].Block.Timestamp >= cut {
 			return fmt.Sprint(n)
@@ -412,7 +424,7 @@ func (w *world) migMinAgeFloor() string {
 
 func (w *world) finishMigration(retained uint64, mf string, unchangedSlot bool, impl string) {
 	// the model's configuration carries `retained`; scenarios use the same value for migration and pruner
-	m := w.ask("migrate " + mf + " " + b01(unchangedSlot))
+	m := w.ask("migrate " + b01(unchangedSlot))
 	w.res.Compared(1)
 	class := impl
 	if len(impl) > 4 && impl[:4] == "err:" {
@@ -445,9 +457,9 @@ func (w *world) finishMigration(retained uint64, mf string, unchangedSlot bool, 
 		w.migrated = true
 	}
 	w.openNode(true)
-	if w.cutoff > 0 {
-		w.ask(fmt.Sprintf("sample %d", w.sampleNow()))
-	}
+	// the model's `migrate` step includes the start of the next process (restartMem): its sample is seeded with
+	// the cut-off of the migration; the real process seeds a moment later (clock-crossing is checked in startProc)
+	w.sampleTie("after-migration")
 	w.quiescent = true
 	w.res.Hit("migrate-outcome:" + class)
 }
@@ -461,7 +473,7 @@ var _ db.KeyValueStore = (*hookDB)(nil)
 func migrationMinAge(e *env, name string, seed uint64, newState bool) {
 	base, err := getBase(fmt.Sprintf("clean/%d/%v", seed, newState), 100+seed, newState, false, 22, 17)
 	if err != nil {
-		e.res.Note("%s: %v", name, err)
+		e.res.Fatalf("%s: base image: %v", name, err)
 		return
 	}
 	g := base.ch.g
@@ -518,7 +530,7 @@ func migrationScenario(e *env, name string, seed uint64, newState bool, mode str
 	}
 	base, err := getBase(key, 100+seed, newState, false, 22, 17)
 	if err != nil {
-		e.res.Note("%s: %v", name, err)
+		e.res.Fatalf("%s: base image: %v", name, err)
 		return
 	}
 	noops := 0
